@@ -273,7 +273,7 @@ def run(ctx):
               'zck_get_data_length no longer walks to the last chunk', dlf.file, dlf.line, config=config)
         # ---- b
         ir = prog.need_func('index_read')
-        patterns = [('count-equal', lambda op, lp, rp: op == '==' and set([lp, rp]) <= set(
+        patterns = [('count-equal', lambda op, lp, rp: op == '==' and 'count' in (lp, rp) and set([lp, rp]) <= set(
             ['count', 'index_count', 'zck->index.count']) and lp != rp)]
         gr = GuardRule(prog, ir, patterns, vocab=('count', 'index_count'), inline=False)
         succ = []
